@@ -239,7 +239,7 @@ func (pr *ProtoArray) GetSlot(blockRoot Root) (Slot, bool) {
 }
 
 // Searches the available nodes for blocks with a matching parent root and/or matching slot.
-// If no options are specified, the
+// If no options are specified, the heads are searched: the blocks that have no child block.
 func (pr *ProtoArray) Search(anchor NodeRef, parentRoot *Root, slot *Slot) (nonCanon []NodeRef, canon []NodeRef, err error) {
 	// this also checks that the anchor exists and updates the node connections.
 	head, err := pr.FindHead(anchor.Root, anchor.Slot)
@@ -248,6 +248,16 @@ func (pr *ProtoArray) Search(anchor NodeRef, parentRoot *Root, slot *Slot) (nonC
 	}
 	anchorIndex := pr.indices[anchor]
 	headIndex := pr.indices[head]
+	// no options = search for heads: remember which blocks have a child block.
+	var hasChildBlock map[Root]struct{}
+	if parentRoot == nil && slot == nil {
+		hasChildBlock = make(map[Root]struct{})
+		for i := range pr.nodes {
+			if node := &pr.nodes[i]; node.Ref.Root != node.ParentRoot {
+				hasChildBlock[node.ParentRoot] = struct{}{}
+			}
+		}
+	}
 	for i := 0; i < len(pr.nodes); i++ {
 		node := &pr.nodes[i]
 		// only search for nodes that contain blocks
@@ -256,13 +266,9 @@ func (pr *ProtoArray) Search(anchor NodeRef, parentRoot *Root, slot *Slot) (nonC
 		}
 		// no options = search for heads.
 		if parentRoot == nil && slot == nil {
-			// if it has no child, it's a head.
-			if node.BestChild != NONE {
-				// if it has only empty slots as children, it's a head.
-				desc := &pr.nodes[node.BestDescendant]
-				if desc.Ref.Root != node.Ref.Root {
-					continue
-				}
+			// if it has no child, or only empty slots as children, it's a head.
+			if _, ok := hasChildBlock[node.Ref.Root]; ok {
+				continue
 			}
 		} else {
 			if parentRoot != nil && node.ParentRoot != *parentRoot {
